@@ -178,6 +178,12 @@ func Values(t reflect.Type, depth int) []reflect.Value {
 	case reflect.Slice:
 		out = append(out, reflect.MakeSlice(t, 0, 0))
 		ev := Values(t.Elem(), depth+1)
+		if k := t.Elem().Kind(); k == reflect.Ptr || k == reflect.Interface {
+			// nil first
+			sz := reflect.MakeSlice(t, 0, 2)
+			sz = reflect.Append(sz, ev[0], ev[len(ev)-1])
+			out = append(out, sz)
+		}
 		s := reflect.MakeSlice(t, 0, 2)
 		s = reflect.Append(s, ev[len(ev)-1], ev[0])
 		out = append(out, s)
@@ -194,6 +200,12 @@ func Values(t reflect.Type, depth int) []reflect.Value {
 			return out
 		}
 		ev := Values(t.Elem(), depth+1)
+		if k := t.Elem().Kind(); k == reflect.Ptr || k == reflect.Interface || k == reflect.Slice || k == reflect.Map {
+			// a single entry holding the zero value of the element type (nil pointer / interface / slice / map): reported as null
+			mz := reflect.MakeMap(t)
+			mz.SetMapIndex(reflect.ValueOf("z").Convert(t.Key()), ev[0])
+			out = append(out, mz)
+		}
 		m := reflect.MakeMap(t)
 		m.SetMapIndex(reflect.ValueOf("k").Convert(t.Key()), ev[len(ev)-1])
 		out = append(out, m)
